@@ -318,7 +318,7 @@ fn mode_first_variant_passes(bytes: &[u8], m1: &Beatmap) -> bool {
     let mut out = String::new();
     let mut done = false;
     for line in text.split_inclusive('\n') {
-        if !done && Section::try_from_line(line.trim_end()).is_some() {
+        if !done && crate::frame::ref_section(line.trim_end()).is_some() {
             out.push_str(&format!("[General]\nMode: {}\n", mode_idx(m1.mode)));
             done = true;
         }
@@ -463,13 +463,13 @@ pub fn prop_lines(bytes: &[u8]) -> String {
     if !first.starts_with("osu file format v") || first["osu file format v".len()..].parse::<i32>() != Ok(m1.format_version) {
         return format!("FAIL first line is not the version line: {first:?}");
     }
-    let heads: Vec<&str> = lines.iter().copied().filter(|l| Section::try_from_line(l).is_some()).collect();
+    let heads: Vec<&str> = lines.iter().copied().filter(|l| crate::frame::ref_section(l).is_some()).collect();
     if heads != HEADERS {
         return format!("FAIL section headers are {heads:?}");
     }
     // every non-blank line inside a section must reach its parser and be accepted
     let Ok(p) = rosu_map::from_bytes::<Probe>(text.as_bytes()) else { return "FAIL re-decode error".into() };
-    let body: Vec<&str> = lines.iter().copied().skip(1).filter(|l| !l.is_empty() && Section::try_from_line(l).is_none()).collect();
+    let body: Vec<&str> = lines.iter().copied().skip(1).filter(|l| !l.is_empty() && crate::frame::ref_section(l).is_none()).collect();
     if p.log.len() != body.len() {
         let seen: Vec<&str> = p.log.iter().map(|x| x.0.as_str()).collect();
         let lost = body.iter().find(|l| !seen.contains(&l.trim_end()));
